@@ -80,7 +80,8 @@ Proof. destruct a, b; cbn [cls_eqb]; intros H; try reflexivity; discriminate H. 
 Lemma phrase_candidates f st p :
   phrase_class f -> In st (site_candidates f p) -> plant st p = sub_phrase (site_nid st) (plant_phrase st) p.
 Proof.
-  intros [Hf|[Hf|[Hf|[Hf|Hf]]]] H; subst f; cbn [site_candidates] in H; in_inv; reflexivity.
+  intros [Hf|[Hf|[Hf|[Hf|Hf]]]] H; subst f; cbn [site_candidates] in H; in_inv; try reflexivity;
+    match goal with H : In _ (call_candidates _ _) |- _ => unfold call_candidates in H end; in_inv; reflexivity.
 Qed.
 Lemma phrase_eligible f st p : phrase_class f -> eligible f st p = eligible_phrase f st p.
 Proof. intros [Hf|[Hf|[Hf|[Hf|Hf]]]]; subst f; reflexivity. Qed.
@@ -153,7 +154,7 @@ Lemma rewrite_phrase_spec r p s ph :
   rewrite_phrase r p = Some (s, ph) ->
   exists i, find_phrase p s = Some i /\ phrase_ok i ph = true /\ ph_compat (prog_labels p) (pi_ph i) ph.
 Proof.
-  destruct r as [s0|s0|s0|s0 x|s0|s0 lbl|s0 x k]; cbn [rewrite_phrase]; cbv zeta; try discriminate.
+  destruct r as [s0|s0|s0|s0 x|s0|s0 lbl|s0 x k|s0 x k y]; cbn [rewrite_phrase]; cbv zeta; try discriminate.
   - destruct (find_phrase p s0) as [i|] eqn:Hfind; [|discriminate].
     destruct (filter (phrase_ok i) (assoc_candidates true (max_nid p + 1) i)) as [|ph0 rest] eqn:Hflt; [discriminate|].
     intros H. injection H as H1 H2. subst s0 ph0. apply filter_head in Hflt. destruct Hflt as [Hin Hok].
